@@ -117,5 +117,91 @@ pub open spec fn cleanup_spec(a: &World, b: &World, e: Entity) -> bool {
 //@|         !final(world).event().currently_reacting, final(world).event().prepared@ == old(world).event().prepared@,
 //@|         cleanup_spec(old(world), final(world), old(world).event().data_entity),
 
+// =================================================================================================================
+// The Command impls: which trackers a command prepares and which (setup, cleanup) pair it hands to the runner (C03, C04).
+// Contract: a command of kind X parks its metadata in exactly the tracker(s) of kind X - for ITS reactor - and then calls
+// the runner for that reactor with setup = start_X and cleanup = end_X of the SAME kind (a mismatch would start or end the
+// wrong tracker).  The runner itself is an ASSUMED total function of the world (uninterpreted; C02 is not applicable).
+// =================================================================================================================
+pub uninterp spec fn sys_id<S>(s: S) -> int;
+pub uninterp spec fn noop_setup() -> int;
+#[verifier::external_body] pub struct SystemCommandSetup { _p: u8 }
+#[verifier::external_body] pub struct SystemCommandCleanup { _p: u8 }
+impl SystemCommandSetup {
+    pub uninterp spec fn reactor(&self) -> SystemCommand;
+    pub uninterp spec fn f(&self) -> int;
+    #[verifier::external_body] pub fn new<F>(reactor: SystemCommand, setup: F) -> (r: Self) ensures r.reactor() == reactor, r.f() == sys_id(setup) { unimplemented!() }
+}
+impl Default for SystemCommandSetup { #[verifier::external_body] fn default() -> (r: Self) ensures r.f() == noop_setup() { unimplemented!() } }
+impl SystemCommandCleanup {
+    pub uninterp spec fn f(&self) -> Option<int>;
+    #[verifier::external_body] pub fn new<F>(cleanup: F) -> (r: Self) ensures r.f() == Some(sys_id(cleanup)) { unimplemented!() }
+}
+impl Default for SystemCommandCleanup { #[verifier::external_body] fn default() -> (r: Self) ensures r.f() is None { unimplemented!() } }
+pub uninterp spec fn run_eff(w: World, command: SystemCommand, setup: SystemCommandSetup, cleanup: SystemCommandCleanup) -> World;
+//@extern src/react/syscommand_runner.rs - syscommand_runner
+//@| ensures *final(world) == run_eff(*old(world), command, setup, cleanup),
+impl TypeId { #[verifier::external_body] pub fn of<T: ?Sized>() -> (t: TypeId) { unimplemented!() } }
+//@impl src/react/system_event_reader.rs impl SystemEventAccessTracker
+//@fn src/react/system_event_reader.rs impl SystemEventAccessTracker prepare
+//@| ensures final(self).prepared@ == old(self).prepared@.push((system, data_entity)), final(self).currently_reacting == old(self).currently_reacting, final(self).data_entity == old(self).data_entity,
+//@endimpl
+//@impl src/react/event_readers.rs impl EventAccessTracker
+//@fn src/react/event_readers.rs impl EventAccessTracker prepare
+//@| ensures final(self).prepared@ == old(self).prepared@.push((system, data_entity)), final(self).currently_reacting == old(self).currently_reacting, final(self).data_entity == old(self).data_entity,
+//@endimpl
+//@impl src/react/entity_reaction_readers.rs impl EntityReactionAccessTracker
+//@fn src/react/entity_reaction_readers.rs impl EntityReactionAccessTracker prepare
+//@| ensures final(self).prepared@ == old(self).prepared@.push((system, source, reaction)), final(self).currently_reacting == old(self).currently_reacting,
+//@|         final(self).system == old(self).system, final(self).reaction_source == old(self).reaction_source, final(self).reaction_type == old(self).reaction_type,
+//@endimpl
+//@impl src/react/despawn_reader.rs impl DespawnAccessTracker
+//@fn src/react/despawn_reader.rs impl DespawnAccessTracker prepare
+//@| ensures final(self).prepared@ == old(self).prepared@.push((reactor, source, handle)), final(self).currently_reacting == old(self).currently_reacting,
+//@|         final(self).reaction_source == old(self).reaction_source, final(self).reactor_handle == old(self).reactor_handle,
+//@endimpl
+
+/// the runner was called on world `w1` for `reactor` with the setup/cleanup pair (start, end) of one kind
+pub open spec fn ran<S, E>(w1: World, out: World, reactor: SystemCommand, start: S, end: E) -> bool {
+    exists|su: SystemCommandSetup, cl: SystemCommandCleanup| su.reactor() == reactor && su.f() == sys_id(start) && cl.f() == Some(sys_id(end)) && out == #[trigger] run_eff(w1, reactor, su, cl)
+}
+pub open spec fn ran_plain(w1: World, out: World, reactor: SystemCommand) -> bool {
+    exists|su: SystemCommandSetup, cl: SystemCommandCleanup| su.f() == noop_setup() && cl.f() is None && out == #[trigger] run_eff(w1, reactor, su, cl)
+}
+pub open spec fn trackers_same_but_sysevent(a: &World, b: &World) -> bool { SystemEventAccessTracker::frame(a, b) }
+
+//@enum src/react/commands.rs ReactionCommand
+//@struct src/react/commands.rs EventCommand
+impl SystemCommand {
+//@fn src/react/commands.rs impl Command for SystemCommand apply
+//@| ensures ran_plain(*old(world), *final(world), self),
+}
+impl EventCommand {
+//@fn src/react/commands.rs impl Command for EventCommand apply
+//@| ensures exists|w1: World| #![trigger w1.sysevent()] SystemEventAccessTracker::frame(old(world), &w1)
+//@|     && w1.sysevent().prepared@ == old(world).sysevent().prepared@.push((self.system, self.data_entity)) && w1.sysevent().currently_reacting == old(world).sysevent().currently_reacting
+//@|     && ran(w1, *final(world), self.system, start_system_event, end_system_event),
+}
+impl ReactionCommand {
+//@fn src/react/commands.rs impl Command for ReactionCommand apply
+//@| ensures match self {
+//@|     ReactionCommand::Resource { reactor } => ran_plain(*old(world), *final(world), reactor),
+//@|     ReactionCommand::EntityReaction { reaction_source, reaction_type, reactor } => exists|w1: World| #![trigger w1.entity_reaction()] EntityReactionAccessTracker::frame(old(world), &w1)
+//@|         && w1.entity_reaction().prepared@ == old(world).entity_reaction().prepared@.push((reactor, reaction_source, reaction_type))
+//@|         && ran(w1, *final(world), reactor, start_entity_reaction, end_entity_reaction),
+//@|     ReactionCommand::Despawn { reaction_source, reactor, handle } => exists|w1: World| #![trigger w1.despawn_tracker()] DespawnAccessTracker::frame(old(world), &w1)
+//@|         && w1.despawn_tracker().prepared@ == old(world).despawn_tracker().prepared@.push((reactor, reaction_source, handle))
+//@|         && ran(w1, *final(world), reactor, start_despawn_reaction, end_despawn_reaction),
+//@|     ReactionCommand::EntityEvent { target, data_entity, reactor } => exists|w1: World| #![trigger w1.event()] w1.sysevent() == old(world).sysevent() && w1.despawn_tracker() == old(world).despawn_tracker() && ecs_same(old(world), &w1)
+//@|         && w1.event().prepared@ == old(world).event().prepared@.push((reactor, data_entity))
+//@|         && w1.entity_reaction().prepared@.len() == old(world).entity_reaction().prepared@.len() + 1 && w1.entity_reaction().prepared@.last().0 == reactor && w1.entity_reaction().prepared@.last().1 == target
+//@|         && w1.entity_reaction().prepared@.drop_last() == old(world).entity_reaction().prepared@
+//@|         && ran(w1, *final(world), reactor, start_entity_event, end_entity_event),
+//@|     ReactionCommand::BroadcastEvent { data_entity, reactor } => exists|w1: World| #![trigger w1.event()] EventAccessTracker::frame(old(world), &w1)
+//@|         && w1.event().prepared@ == old(world).event().prepared@.push((reactor, data_entity))
+//@|         && ran(w1, *final(world), reactor, start_broadcast_event, end_broadcast_event),
+//@| },
+}
+
 } // verus!
 fn main() {}
